@@ -18,8 +18,17 @@ THEOREMS = ["C24_relative_sets_are_offsets_partial", "C24_reset_trace_partial", 
 COQ_IMPORTS = ("From Coq Require Import PrimFloat.\nFrom BV Require Import Gen.Coalg Gen.PyGen Gen.Tie Gen.Paired Gen.Insert "
                "Gen.Relative Gen.TiePaired Gen.TieRelative.")
 PARALLEL = True
-MODELLED = ""
-RULE = ""
+MODELLED = ("plan_mutator with the insert_reads processor and its closure initial_positions is a hand-written machine (Gen/Insert.v); "
+            "msg_mutator, finalize_wrapper and the wrappers' own generators as in C23; independent devices only (no pseudo-positioner "
+            "coupling); fake motors of the three kinds the code distinguishes; answers to position queries are None or an object that "
+            "reads as a Location and as a one-field reading; rel_* plans: the inner absolute plan is a recorded message list (success "
+            "path) and a mini engine answers messages the way the RunEngine would; random groups renamed by prefix / first appearance")
+RULE = ("relative_set_wrapper, reset_positions_wrapper and their composition x 14 wrapped plans (incl. failing, retrying after a "
+        "failure, re-yielding the same Msg object, own cleanup that moves, ignoring close) x 5 assignments of device kinds x "
+        "eligibility lists x int / float / extreme-float position tables (0.1+0.2, 1e16, 1e300, subnormal, -0.0); scripts: every "
+        "position x {answer None / each table position / Status, throw User0 / RequestAbort / RequestStop / PlanHalt / "
+        "KeyboardInterrupt, close}; exhaustive scripts up to length 4-5; real rel_set over all wait/group combinations; mvr, rel_scan, "
+        "rel_list_scan, rel_grid_scan (snaked too) on fake motors, also with an exception thrown at message 2/5/9/14/23; random plans")
 
 Y = lambda m, x=None: ["yield", x, m]      # noqa: E731
 
